@@ -31,14 +31,16 @@ THEOREMS = [
     "C02_all_round",
     "C02_all_early_witness",
     "C02_all_early_witness_twice",
+    "C02_all_never_early_repaired",
+    "C02_all_round_repaired",
     "C02_refines_queue",
     "C02_refines_queue_values",
     "C02_value",
     "C02_flow_early_witness",
 ]
 RULE = (
-    "trigger level: seeded random histories (quick) / every history up to length 5 over 3 emitters and the "
-    "10-event alphabet {arrive e, connect e, disconnect e, poke} plus every history up to length 4 with two "
+    "trigger level: seeded random histories (quick) / every history up to length 6 over 3 emitters and the "
+    "10-event alphabet {arrive e, connect e, disconnect e, poke} plus every history up to length 5 with two "
     "equally labelled emitters (thorough), all sugar forms of connecting, emitter calls and real emitter runs "
     "(ran / failed); flow level: templates (chains, diamonds with all-of joins, If branches, accumulate-then-"
     "branch, counter loops that exit, failure handlers) with random parameters and random extra/missing signal "
@@ -60,15 +62,17 @@ ASSUMPTIONS = [
 ]
 EXHAUSTIVE = {"thorough": True}
 EXPLANATION = (
-    "thorough runs every trigger history up to length 5 over 3 distinctly labelled emitters "
-    "(111110 histories) and every history up to length 4 with two equally labelled emitters on the real "
-    "channel objects; flows are sampled"
+    "thorough runs every trigger history up to length 6 over 3 distinctly labelled emitters "
+    "(1111110 histories), every history up to length 5 with two equally labelled emitters (111110) and every "
+    "history up to length 6 over 2 sibling emitters inside a workflow (137256) on the real channel objects; "
+    "flows are sampled"
 )
 
 CH = ["ran", "failed", "true", "false"]
 RUNAWAY_STARTS = 400
 MODEL_FUEL = 4000
 MAX_RUNS = 150
+MAX_VALUE_SIZE = 400
 
 # ============================================================================== values
 
@@ -275,7 +279,9 @@ def _run_trig(case):
             new = [t for (t, _a) in N.CALL_LOG[mark:]]
             fa, fc = new.count(R_ANY), new.count(R_ACC)
             hf.append((fa, fc))
-            rec = sorted(lab_of.get(s, 999) for s in acc.received_signals)
+            # pinned tree: a set of scoped-label strings; repaired tree: a set of channel objects
+            rec = sorted(lab_of.get(s, 999) if isinstance(s, str) else chan_of.get(id(s), 99)
+                         for s in acc.received_signals)
             line = (
                 f"any {fa} {nats([chan_of.get(id(c), 99) for c in anyc.connections])} | "
                 f"acc {fc} {nats([chan_of.get(id(c), 99) for c in acc.connections])} {nats(rec)}"
@@ -300,14 +306,18 @@ def _run_trig(case):
 
 
 def _trig_model_input(case):
+    """the histories twice: with the case's labels (the all-of trigger keyed by scoped label, as pinned),
+    then — after `reset` — with every emitter channel its own label (keyed by identity, the repair of
+    fixes/C02-accumulate-by-identity.patch); `diff` accepts agreement with either, for the whole case"""
+    body = []
+    for hist in case["hists"]:
+        body.append("thist")
+        body.extend(_trig_model_line(ev) for ev in hist)
     lines = []
     for e, l in enumerate(case["labels"]):
         for c in (0, 1):
             lines.append(f"lab {_chan(e, c)} {2 * l + c}")
-    for hist in case["hists"]:
-        lines.append("thist")
-        lines.extend(_trig_model_line(ev) for ev in hist)
-    return lines
+    return lines + body + ["reset"] + body
 
 
 def _trig_oracle(case, impl):
@@ -522,7 +532,7 @@ def _run_flow(case):
     for i in range(n):
         a = ns[i].signals.input.accumulate_and_run
         if len(a.connections) > 0:
-            rec.append(f"{i}:{nats(sorted(labid.get(s, 9999) for s in a.received_signals))}")
+            rec.append(f"{i}:{nats(sorted(labid.get(s if isinstance(s, str) else s.scoped_label, 9999) for s in a.received_signals))}")
     obs = [
         f"wf {1 if hyp else 0}",
         f"fired {nats(fired)}",
@@ -596,6 +606,10 @@ def _py_eval(kind, tag, args):
     raise ValueError(kind)
 
 
+class _TooBig(Exception):
+    pass
+
+
 def interpret(case, max_runs=MAX_RUNS):
     """One FIFO of pending triggers: start tokens for the starting nodes, then one entry per connection of
     every emitted signal, newest connection first. Returns None if more than `max_runs` children run."""
@@ -620,6 +634,16 @@ def interpret(case, max_runs=MAX_RUNS):
     seen = [set() for _ in range(n)]
     order, calls = [], []
     fifo = deque((None, (i, False)) for i in case["starters"])
+    sizes = {}
+
+    def size(v):
+        """tree size of a value (terms share sub-terms: memoised by object identity)"""
+        if type(v) not in (tuple, list):
+            return 1
+        k = id(v)
+        if k not in sizes:
+            sizes[k] = (v, 1 + sum(size(x) for x in v))  # keep v alive so that the id stays unique
+        return sizes[k][1]
 
     def run(i):
         nd = nodes[i]
@@ -646,6 +670,8 @@ def interpret(case, max_runs=MAX_RUNS):
                 if attempts[i] in nd.get("fail", []):
                     raise RuntimeError
                 out[i] = _py_eval(nd["kind"], i, args)
+                if size(out[i]) > MAX_VALUE_SIZE:
+                    raise _TooBig
             except (TypeError, RuntimeError):
                 failed[i] = True
                 cached[i] = None
@@ -656,18 +682,21 @@ def interpret(case, max_runs=MAX_RUNS):
             for r in sconn.get(s, []):
                 fifo.append((s, r))
 
-    while fifo:
-        if len(order) > max_runs:
-            return None
-        src, (r, acc) = fifo.popleft()
-        if acc:
-            if src is not None:
-                seen[r].add(src)
-            if upstream[r] <= seen[r]:
-                seen[r] = set()
+    try:
+        while fifo:
+            if len(order) > max_runs:
+                return None
+            src, (r, acc) = fifo.popleft()
+            if acc:
+                if src is not None:
+                    seen[r].add(src)
+                if upstream[r] <= seen[r]:
+                    seen[r] = set()
+                    run(r)
+            else:
                 run(r)
-        else:
-            run(r)
+    except _TooBig:
+        return None  # values grow beyond what can be printed: not a case the generator keeps
     return {"exec": order, "calls": calls, "outs": [canon(v) for v in out], "failed": [i for i in range(n) if failed[i]]}
 
 
@@ -702,6 +731,49 @@ def _flow_oracle(case, impl):
     return fails
 
 
+# ============================================================================== cross-scope (implementation only)
+
+
+def _run_xscope(case):
+    """A running workflow with children `a`, `c` and a macro `m` that owns another child labelled `a`;
+    `c << (wf.a, wf.m.a)` — signal connections may cross scopes, and the two emitters share the scoped
+    label `a__ran`. Only `wf.a` is started; `m` (hence `m.a`) never runs."""
+    from pyiron_workflow import Workflow
+
+    from . import nodes_c02 as N
+
+    N.reset()
+    wf = Workflow("wf", autoload=None, automate_execution=False)
+    wf.recovery = None
+    wf.a = N.T(tag=1)
+    wf.m = N.MacroWithA() if case.get("same_label", True) else N.MacroWithB()
+    wf.c = N.T(tag=3)
+    wf.c.use_cache = False
+    inner = wf.m.a if case.get("same_label", True) else wf.m.b
+    wf.c.signals.input.accumulate_and_run << (wf.a.signals.output.ran, inner.signals.output.ran)
+    wf.starting_nodes = [wf.a]
+    outcome = "ok"
+    try:
+        wf.run()
+    except Exception as e:  # noqa: BLE001
+        outcome = f"raised:{type(e).__name__}"
+    calls = [t for t, _ in N.CALL_LOG]
+    return {"obs": [], "outcome": outcome, "exec": list(wf.provenance_by_execution), "calls": calls,
+            "stats": {"xscope": 1}}
+
+
+def _xscope_oracle(case, impl):
+    if 3 in impl["calls"]:
+        return [{
+            "clause": "all-never-early",
+            "detail": f"c << (wf.a, wf.m.{'a' if case.get('same_label', True) else 'b'}): c ran although the macro's child "
+                      f"never ran (provenance {impl['exec']}, calls {impl['calls']})",
+            "signature": {"clause": "all-never-early", "trigger": "run", "label_clash": bool(case.get("same_label", True)),
+                          "parent": True, "xscope": True},
+        }]
+    return []
+
+
 # ============================================================================== engine interface
 
 
@@ -712,6 +784,8 @@ def run_impl(case):
         return _run_flow(case)
     if case["kind"] == "malformed":
         return {"obs": ["bad-op"] * len(case["lines"]), "stats": {"malformed_lines": len(case["lines"])}}
+    if case["kind"] == "xscope":
+        return _run_xscope(case)
     raise ValueError(case["kind"])
 
 
@@ -720,7 +794,37 @@ def model_input(case, impl):
         return _trig_model_input(case)
     if case["kind"] == "flow":
         return _flow_model_input(case)
+    if case["kind"] == "xscope":
+        return []  # two scopes, two queues: outside the single-composite model; oracle only
     return list(case["lines"])
+
+
+def _first_diff(view, model):
+    if list(view) == list(model):
+        return None
+    for i, (a, b) in enumerate(zip(view, model)):
+        if a != b:
+            return {"index": i, "impl": a, "model": b}
+    return {"index": min(len(view), len(model)), "impl": f"<{len(view)} lines>", "model": f"<{len(model)} lines>"}
+
+
+def diff(case, impl, model):
+    view = impl["obs"]
+    if case["kind"] != "trig":
+        return _first_diff(view, model)
+    if "reset" not in model:
+        return {"index": -1, "impl": "two model variants expected", "model": model[:2]}
+    k = model.index("reset")
+    pinned, repaired = model[:k], model[k + 1:]
+    dp = _first_diff(view, pinned)
+    if dp is None:
+        return None
+    dr = _first_diff(view, repaired)
+    if dr is None:
+        return None
+    best = dp if dp["index"] >= dr["index"] else dr
+    best["variant"] = "label-keyed (pinned)" if best is dp else "identity-keyed (repaired)"
+    return best
 
 
 def oracle(case, impl):
@@ -730,6 +834,8 @@ def oracle(case, impl):
         return _trig_oracle(case, impl)
     if case["kind"] == "flow":
         return _flow_oracle(case, impl)
+    if case["kind"] == "xscope":
+        return _xscope_oracle(case, impl)
     return []
 
 
@@ -1028,7 +1134,7 @@ def gen_cases(rng, tier):
     if tier == "quick":
         n_trig, per, n_flow = 160, 10, 700
     else:
-        n_trig, per, n_flow = 400, 12, 3000
+        n_trig, per, n_flow = 600, 12, 6000
     for _ in range(n_trig):
         n_em = rng.randint(2, 3)
         parent = rng.random() < 0.3
@@ -1041,15 +1147,18 @@ def gen_cases(rng, tier):
     for _ in range(n_flow):
         yield _gen_flow(rng)
     if tier == "thorough":
-        for b in _batches(_exhaustive_hists(3, 5), 400):
+        for b in _batches(_exhaustive_hists(3, 6), 2000):
             yield {"kind": "trig", "labels": [0, 1, 2], "parent": False, "hists": b}
-        for b in _batches(_exhaustive_hists(3, 4), 400):
+        for b in _batches(_exhaustive_hists(3, 5), 2000):
             yield {"kind": "trig", "labels": [0, 0, 1], "parent": False, "hists": b}
-        for b in _batches(_exhaustive_hists(2, 5), 400):
+        for b in _batches(_exhaustive_hists(2, 6), 2000):
             yield {"kind": "trig", "labels": [0, 1], "parent": True, "hists": b}
 
 
 def corpus():
+    # the same defect inside a RUNNING workflow: emitters in two scopes with one scoped label
+    yield {"kind": "xscope", "same_label": True}
+    yield {"kind": "xscope", "same_label": False}
     # P15: three parentless nodes of one class, `c << (a, b)`, a completes (c runs early), b completes (again)
     yield {"kind": "trig", "labels": [0, 0], "parent": False, "hists": [
         [["connect", "acc", 0, 0, "node<<node"], ["connect", "acc", 1, 0, "node<<node"], ["run", 0, False], ["run", 1, False]]]}
